@@ -102,8 +102,8 @@ def _c12_calltime_noise_defect():
     with warnings.catch_warnings():
         warnings.simplefilter("ignore")
         got = lik._shaped_noise_covar(torch.Size([3]), noise=nu).to_dense().detach()
-    want = torch.diag(nu) + 0.3 * torch.eye(3, dtype=torch.float64)
-    return bool((got - want).abs().max() > 1e-9)
+    want = torch.diag(nu) + lik.second_noise_covar.noise.detach().reshape(-1)[0] * torch.eye(3, dtype=torch.float64)
+    return bool((got - want).abs().max() > 1e-6)
 
 
 # ------------------------------------------------------------------ case generation
@@ -271,7 +271,7 @@ def correspondence(ctx, extra=False):
     import torch
     torch.set_num_threads(2)
     thorough = ctx.tier == "thorough" or extra
-    n_single, n_multi, ncell = (45, 9, 10) if not thorough else (200, 40, 64)
+    n_single, n_multi, ncell = (60, 12, 10) if not thorough else (280, 40, 64)
     workers = 4 if not thorough else 10
     if os.environ.get("VERIF_C01_CASES"):
         n_single, n_multi = [int(v) for v in os.environ["VERIF_C01_CASES"].split(",")]
